@@ -26,6 +26,7 @@ RULE = (
     "partly shared; signature order permuted with p = 0.3), data of both members drawn from one truth, every member with its own sources, no shared source; per member "
     "'dynamic' (x source or source relative to the model) or 'static' (absolute y sources only) in all combinations and both orders (mixed : all-dynamic : none-dynamic = 4 : 1 : 1); "
     "fixed / limited parameters declared on the MultiFit; start values 7 % (all families) or up to 30 % (monotone families, p = 0.7) off the defaults; "
+    "the xy cases of every fourth round of a shard are the stratum 'flat-start-correlated-x' (monotone family, correlated x source, start amplitude 0); "
     "non-trivial = parameter-dependent covariance (x or model-relative source) or an active limit or a fixed parameter; distinct by case hash"
 )
 ASSUMPTIONS = [
@@ -172,10 +173,6 @@ def gen_multi(rng, tier, k, shard):
     return case
 
 
-def force_flat_start(spec, gi):
-    return spec["type"] == "xy" and (gi // 6) % 8 in (3, 6)
-
-
 def gen_case(rng, tier, idx, shard, nshards):
     if idx % 5 == 1:
         return gen_multi(rng, tier, idx // 5, shard)
@@ -194,8 +191,9 @@ def gen_case(rng, tier, idx, shard, nshards):
             setup.append(["add_error", {"err": [float(np.round(v, 4)) for v in rng.uniform(3.0, 8.0, size=n)], "relative": False, "reference": "data", "corr": 0.0, "name": "e0"}])
     else:
         # stratum 'flat-start-correlated-x' (monotone family, correlated x source, zero start amplitude) is enumerated, not left to chance:
-        # two of every eight rounds of the xy slots, one with each algorithm
-        force_flat = force_flat_start({"type": ftype}, gi)
+        # the xy slots of every fourth round of a shard (a round = 3 consecutive cases of the shard = one pass over its slots; counted per
+        # shard, because gi-based selectors alias with the slot and algorithm pattern)
+        force_flat = ftype == "xy" and (idx // 3) % 4 == 1
         fam = str(rng.choice(["exponential", "powerlaw", "gausspeak", "lorentz", "sinusoid", "logistic"]))
         cost = str(rng.choice(["chi2", "chi2", "chi2", "chi2_pointwise", "nll_gaussian", "nll_poisson", "chi2_fast"]))
         if force_flat:
@@ -239,7 +237,7 @@ def gen_case(rng, tier, idx, shard, nshards):
             start[nm] = float(np.clip(start[nm], lo + 1e-3 * (hi - lo), hi - 1e-3 * (hi - lo)))
     flat = False
     fam_ = spec["model"]["family"]
-    if spec["type"] == "xy" and fam_ in ("exponential", "powerlaw", "logistic") and any(gen.norm_axis(o[1].get("axis")) == "x" and o[1].get("corr") for o in setup) and (rng.random() < 0.6 or force_flat_start(spec, gi)):
+    if spec["type"] == "xy" and fam_ in ("exponential", "powerlaw", "logistic") and any(gen.norm_axis(o[1].get("axis")) == "x" and o[1].get("corr") for o in setup) and (rng.random() < 0.6 or (idx // 3) % 4 == 1):
         # start with zero amplitude: the model is flat in x there, so the projected x uncertainties (and their correlations) vanish at the
         # start values although they do not at the optimum
         from vlib.models import UNIT_PARAMS
